@@ -12,8 +12,15 @@ package linux
 //vc:  requires[C11] @notInConfMode !confMode
 //vc:  ensures[C11] @leavesConfMode !confMode
 //vc:  requires[C11] !isCompareRun || pass == loginPass
+// routingSaved: the startup routing file was rewritten in this run. When route
+// commands were sent, the file is rewritten too - also when the target has no
+// route left (the file then only holds the header); otherwise the deleted
+// routes are back after the next reboot.
+//vc:ghost var routingSaved bool
 //vc:func (*State).ApplyCommands
 //vc:  requires[C11] !isCompareRun
+//vc:  init routingSaved = false
+//vc:  ensures[C05] @changedRoutesAreSaved result == nil && len(old(s.change.routes)) != 0 ==> routingSaved
 //vc:  invariant[C09] 1 "for _, c := range ch.routes" accepted == old(accepted) + 1 + rangeindex && -1 <= rangeindex && rangeindex < len(s.change.routes) && len(s.change.routes) == old(len(s.change.routes))
 //vc:  assert[C05] at "s.writeStartupIPTables(cf.iptables, tmpFile)" @targetRulesetIsLoaded s.change.iptables != "" && arg1 == s.change.newConfig.iptables
 //vc:  assert[C05] at "s.writeStartupRouting(cf.routes, deviceRoutingFile)" @targetRoutesAreSaved arg1 == s.change.newConfig.routes
@@ -39,6 +46,8 @@ package linux
 //vc:  requires[C11] !isCompareRun
 //vc:func (*State).writeStartupRouting
 //vc:  requires[C11] !isCompareRun
+//vc:  set routingSaved = true
+//vc:  ensures[C05] routingSaved
 
 //vc:func (*State).checkDeviceName
 //vc:  requires[C11] @notInConfMode !confMode
